@@ -226,6 +226,47 @@ func c18Src(r *rng, id string) {
 	emit("C18 src id=%s src=%d inner=%d innerok=%d carrier=%s listed=%d recorded=%d events=%d panic=%d", id, srcOK, inner, innerOK, carrier, listed, recorded, len(evs), pan)
 }
 
+// c18Full: the handoff queue is full of alive gossip from allowed peers (the handler is busy) when an alive
+// message arrives from a source outside the allow-list, naming an allowed address. Whatever the node does
+// with its full queue, that message must not be taken for one from an allowed source.
+func c18Full(r *rng, id string) {
+	alist := []string{"10.0.0.0/8"}
+	rcv, err := newCnode(ccfg{name: "R", cidrs: alist, altRep: r.chance(1, 2)})
+	if err != nil {
+		return
+	}
+	blk := make(chan struct{})
+	rcv.del.block = blk
+	vsn := []uint8{1, 5, 2, 0, 0, 0}
+	ml.VerifIngestPacket(rcv.m, []byte{8, 1, 2}, fromAddr, time.Now()) // parks the handler in the delegate
+	time.Sleep(20 * time.Millisecond)
+	depth := 1024
+	fill := depth + []int{0, 0, 5, -3}[r.intn(4)]
+	for i := 0; i < fill; i++ {
+		ml.VerifIngestPacket(rcv.m, ml.VerifEncodeAlive(1, fmt.Sprintf("f%d", i), []byte{10, 1, byte(i >> 8), byte(i)}, 7946, nil, vsn), fromAddr, time.Now())
+	}
+	outsider, _ := net.ResolveUDPAddr("udp", "192.168.0.9:7946")
+	k := 1 + r.intn(3)
+	for i := 0; i < k; i++ {
+		ml.VerifIngestPacket(rcv.m, ml.VerifEncodeAlive(1, fmt.Sprintf("intruder%d", i), []byte{10, 9, 9, byte(i + 1)}, 7946, nil, vsn), outsider, time.Now())
+	}
+	queued := ml.VerifHandoffLen(rcv.m)
+	close(blk)
+	rcv.del.block = nil
+	for i := 0; i < 4000 && ml.VerifHandoffLen(rcv.m) > 0; i++ {
+		time.Sleep(time.Millisecond)
+	}
+	time.Sleep(20 * time.Millisecond)
+	admitted := 0
+	for _, nd := range ml.VerifSnapshotState(rcv.m).Nodes {
+		if strings.HasPrefix(nd.Name, "intruder") {
+			admitted++
+		}
+	}
+	emit("C18 full id=%s fill=%d queued=%d outsiders=%d admitted=%d", id, fill, queued, k, admitted)
+	rcv.m.Shutdown()
+}
+
 // c18Parse: ParseCIDRs on lists with well-formed and malformed entries: the documented result is the
 // well-formed networks (in order) together with an error iff something was malformed - a caller that
 // logs the error and goes on must not end up with an empty list, which means "allow everybody".
@@ -661,4 +702,5 @@ func TestC18(t *testing.T) {
 	})
 	forCases(n/4, 1181, "s", func(i int, r *rng, id string) { c18Src(r, id) })
 	forCases(n/8, 1182, "p", func(i int, r *rng, id string) { c18Parse(r, id) })
+	forCases(4, 1183, "f", func(i int, r *rng, id string) { c18Full(r, id) })
 }
